@@ -79,7 +79,43 @@ func Mutate(r *lib.Rand, doc map[string]any, n int) []string {
 			}
 			if len(typed) > 0 {
 				m := typed[r.Intn(len(typed))]
-				switch r.Intn(6) {
+				switch r.Intn(8) {
+				case 6, 7:
+					// a LONG list (17-40 members; legal for the Swagger schema unless it repeats a member): enum with an
+					// object, an array or null among scalars; required; a long uniqueItems default
+					n := r.Range(17, 40)
+					long := make([]any, n)
+					for k := range long {
+						long[k] = json.Number(fmt.Sprint(k))
+					}
+					switch r.Intn(4) {
+					case 0:
+						long[r.Intn(n)] = map[string]any{"a": json.Number("1")}
+					case 1:
+						long[r.Intn(n)] = []any{"x"}
+					case 2:
+						long[r.Intn(n)] = nil
+					}
+					if r.P(0.25) {
+						long[n-1] = long[r.Intn(n-1)] // repeats a member: violates uniqueItems of the Swagger schema
+					}
+					switch r.Intn(3) {
+					case 0:
+						m["enum"] = long
+					case 1:
+						names := make([]any, n)
+						for k := range names {
+							names[k] = fmt.Sprintf("p%02d", k)
+						}
+						if r.P(0.25) {
+							names[n-1] = names[0]
+						}
+						m["required"] = names
+					default:
+						m["default"] = long
+					}
+					edits = append(edits, "long-list")
+					continue
 				case 0:
 					m["multipleOf"] = []any{json.Number("-2"), json.Number("0"), json.Number("-0.5"), "2"}[r.Intn(4)]
 				case 1:
@@ -319,7 +355,24 @@ func GraphEdit(r *lib.Rand, doc map[string]any) string {
 		defs = map[string]any{}
 		doc["definitions"] = defs
 	}
-	switch r.Intn(4) {
+	switch r.Intn(5) {
+	case 4:
+		// a cycle of definitions through composition keywords (A allOf [B], B allOf [A]: circular ancestry; or through
+		// anyOf / oneOf / not) and a schema with a default / example whose value reaches into the cycle
+		n := r.Range(1, 3)
+		kw := r.Pick("allOf", "allOf", "anyOf", "oneOf", "not")
+		for i := 0; i < n; i++ {
+			next := map[string]any{"$ref": fmt.Sprintf("#/definitions/Loop%d", (i+1)%n)}
+			if kw == "not" {
+				defs[fmt.Sprintf("Loop%d", i)] = map[string]any{"not": next}
+			} else {
+				defs[fmt.Sprintf("Loop%d", i)] = map[string]any{kw: []any{next, map[string]any{"type": "object", "properties": map[string]any{fmt.Sprintf("lp%d", i): map[string]any{"type": "string"}}}}}
+			}
+		}
+		user := map[string]any{"type": "object", "properties": map[string]any{"p": map[string]any{"$ref": "#/definitions/Loop0"}}}
+		user[r.Pick("default", "example")] = map[string]any{"p": map[string]any{"lp0": "v"}}
+		defs["LoopUser"] = user
+		return fmt.Sprintf("composition-cycle %s length %d", kw, n)
 	case 0:
 		// a cycle of pure $ref definitions of length 1..3 and something which leads into it
 		n := r.Range(1, 3)
@@ -531,4 +584,58 @@ func SchemaEdit(r *lib.Rand, doc map[string]any) string {
 		}
 	}
 	return ""
+}
+
+
+// CompositionCycle tells whether the definitions of a parsed specification contain a cycle which runs through
+// composition positions only ($ref of the definition itself, members of allOf / anyOf / oneOf, the schema under not):
+// positions which consume no data, so that compiling a validator for such a definition never ends.
+func CompositionCycle(doc map[string]any) bool {
+	defs, _ := doc["definitions"].(map[string]any)
+	edges := map[string][]string{}
+	for name, d := range defs {
+		var walk func(v any)
+		walk = func(v any) {
+			m, ok := v.(map[string]any)
+			if !ok {
+				return
+			}
+			if ref, ok := m["$ref"].(string); ok && strings.HasPrefix(ref, "#/definitions/") {
+				edges[name] = append(edges[name], strings.TrimPrefix(ref, "#/definitions/"))
+			}
+			for _, k := range []string{"allOf", "anyOf", "oneOf"} {
+				if l, ok := m[k].([]any); ok {
+					for _, e := range l {
+						walk(e)
+					}
+				}
+			}
+			walk(m["not"])
+		}
+		walk(d)
+	}
+	state := map[string]int{}
+	var visit func(n string) bool
+	visit = func(n string) bool {
+		switch state[n] {
+		case 1:
+			return true
+		case 2:
+			return false
+		}
+		state[n] = 1
+		for _, m := range edges[n] {
+			if visit(m) {
+				return true
+			}
+		}
+		state[n] = 2
+		return false
+	}
+	for n := range edges {
+		if visit(n) {
+			return true
+		}
+	}
+	return false
 }
